@@ -179,7 +179,11 @@ type sendRec struct {
 func (s sendRec) failed() bool { return s.newMsgErr != nil || s.sendErr != nil }
 
 // run sends the messages of kinds over a fresh transport with one fault.
-func run(packed bool, kinds []int, failAt, failK int) (*faultRWC, []sendRec, error) {
+//
+// pre >= 0: message number pre is allocated and built BEFORE the first send
+// (as the Conn does with the Return of a running call) and sent at its place
+// in the sequence.
+func run(packed bool, kinds []int, failAt, failK int, pre int) (*faultRWC, []sendRec, error) {
 	rwc := &faultRWC{failAt: failAt, failK: failK}
 	var tr rpc.Transport
 	if packed {
@@ -188,15 +192,39 @@ func run(packed bool, kinds []int, failAt, failK int) (*faultRWC, []sendRec, err
 		tr = rpc.NewStreamTransport(rwc)
 	}
 	recs := make([]sendRec, len(kinds))
-	for s, kind := range kinds {
+	var preSend func() error
+	var preRelease func()
+	var preCancel context.CancelFunc
+	if pre >= 0 {
 		ctx, cancel := context.WithCancel(context.Background())
-		rwc.cancel = cancel
+		preCancel = cancel
 		defer cancel()
+		m, send, release, err := tr.NewMessage(ctx)
+		if err != nil {
+			return nil, nil, fmt.Errorf("harness: NewMessage on a fresh transport: %v", err)
+		}
+		if err := build(m, kinds[pre], pre); err != nil {
+			release()
+			return nil, nil, fmt.Errorf("harness: building message %d: %v", pre, err)
+		}
+		recs[pre].segs = snapshot(m)
+		preSend, preRelease = send, release
+	}
+	for s, kind := range kinds {
 		rwc.cur = s
 		for len(rwc.contrib) <= s {
 			rwc.contrib = append(rwc.contrib, nil)
 		}
 		recs[s].kind = kind
+		if s == pre {
+			rwc.cancel = preCancel
+			recs[s].sendErr = preSend()
+			preRelease()
+			continue
+		}
+		ctx, cancel := context.WithCancel(context.Background())
+		rwc.cancel = cancel
+		defer cancel()
 		m, send, release, err := tr.NewMessage(ctx)
 		if err != nil {
 			recs[s].newMsgErr = err
@@ -252,6 +280,7 @@ func (q seqSpec) String() string {
 type faultCase struct {
 	seq  int
 	j, k int
+	pre  bool // the first message after the base sequence is allocated before everything else
 }
 
 func seqSpecs() []seqSpec {
@@ -269,7 +298,7 @@ func seqSpecs() []seqSpec {
 					q.base = append(q.base, y%nKinds)
 					y /= nKinds
 				}
-				rwc, _, err := run(packed, q.base, -1, 0)
+				rwc, _, err := run(packed, q.base, -1, 0, -1)
 				if err != nil {
 					panic(err)
 				}
@@ -330,7 +359,11 @@ func judge(q seqSpec, fc faultCase, frames [][]byte, rwc *faultRWC, recs []sendR
 			}
 			res += fmt.Sprintf("\n   send %d (%s, frame %d bytes): %s; bytes put on the stream: %d", s, kindName[rec.kind], len(frames[s]), st, len(rwc.contrib[s]))
 		}
-		return fmt.Sprintf("%s; Write call #%d (of %d bytes, during send %d) returns (%d, err)%s\n   stream: %s", q, fc.j, q.lens[fc.j], rwc.sendOf[fc.j], fc.k, res, hx(rwc.all))
+		pre := ""
+		if fc.pre {
+			pre = fmt.Sprintf("; message %d was allocated and built before the first send", len(q.base))
+		}
+		return fmt.Sprintf("%s%s; Write call #%d (of %d bytes, during send %d) returns (%d, err)%s\n   stream: %s", q, pre, fc.j, q.lens[fc.j], rwc.sendOf[fc.j], fc.k, res, hx(rwc.all))
 	}
 	// fail formats the (long) detail only while it is still kept by vlib
 	fail := func(key, format string, a ...interface{}) {
@@ -438,7 +471,11 @@ func judge(q seqSpec, fc faultCase, frames [][]byte, rwc *faultRWC, recs []sendR
 func runCase(q seqSpec, fc faultCase, r *vlib.Rec) {
 	kinds := q.kinds()
 	// healthy run: frames of every send, checked against the independent framing
-	h, hrecs, err := run(q.packed, kinds, -1, 0)
+	pre := -1
+	if fc.pre {
+		pre = len(q.base)
+	}
+	h, hrecs, err := run(q.packed, kinds, -1, 0, pre)
 	if err != nil {
 		r.Fail("harness", err.Error())
 		return
@@ -489,7 +526,7 @@ func runCase(q seqSpec, fc faultCase, r *vlib.Rec) {
 		r.Outcome("healthy")
 		return
 	}
-	rwc, recs, err := run(q.packed, kinds, fc.j, fc.k)
+	rwc, recs, err := run(q.packed, kinds, fc.j, fc.k, pre)
 	if err != nil {
 		r.Fail("harness", err.Error())
 		return
@@ -503,7 +540,7 @@ func runCase(q seqSpec, fc faultCase, r *vlib.Rec) {
 }
 
 // Rule describes the enumeration of this part.
-const Rule = "part (b) torn writes: real rpc.NewStreamTransport and rpc.NewPackedStreamTransport over an in-memory io.ReadWriteCloser without deadline methods; every sequence of 1..3 rpc messages over {Finish (1 segment), Call with 5-byte params (1 segment), Call with 1100-byte params (2 segments)} followed by three more sends; for EVERY Write call index j issued while sending the base sequence and every short count k in [0,len(b)) (quick: all k for buffers <=32 bytes, 23 boundary values otherwise; thorough: all k) that one Write returns (k, err) and all other writes succeed. Non-trivial = a faulty run whose j-th Write happened and whose result was judged (all (sequence, j, k) triples are distinct), plus one healthy run per sequence."
+const Rule = "part (b) torn writes: real rpc.NewStreamTransport and rpc.NewPackedStreamTransport over an in-memory io.ReadWriteCloser without deadline methods; every sequence of 1..3 rpc messages over {Finish (1 segment), Call with 5-byte params (1 segment), Call with 1100-byte params (2 segments)} followed by three more sends; for EVERY Write call index j issued while sending the base sequence and every short count k in [0,len(b)) (quick: all k for buffers <=32 bytes, 23 boundary values otherwise; thorough: all k) that one Write returns (k, err) and all other writes succeed. Non-trivial = a faulty run whose j-th Write happened and whose result was judged (all (sequence, j, k) triples are distinct), plus one healthy run per sequence; everything once more with the first message after the base sequence allocated and built before the first send (a message that exists before the tear and is sent after it)."
 
 // Assumptions of this part.
 var Assumptions = []string{
@@ -518,13 +555,15 @@ func Families(tier string) []vlib.Family {
 	specs := seqSpecs()
 	var cases []faultCase
 	for si, q := range specs {
-		cases = append(cases, faultCase{si, -1, 0})
-		for j, L := range q.lens {
-			for _, k := range shortCounts(L, tier == "thorough") {
-				cases = append(cases, faultCase{si, j, k})
+		for _, pre := range []bool{false, true} {
+			cases = append(cases, faultCase{si, -1, 0, pre})
+			for j, L := range q.lens {
+				for _, k := range shortCounts(L, tier == "thorough") {
+					cases = append(cases, faultCase{si, j, k, pre})
+				}
+				// the sending context is cancelled right after Write #j completed
+				cases = append(cases, faultCase{si, j, -1, pre})
 			}
-			// the sending context is cancelled right after Write #j completed
-			cases = append(cases, faultCase{si, j, -1})
 		}
 	}
 	return []vlib.Family{{
@@ -536,13 +575,20 @@ func Families(tier string) []vlib.Family {
 		Describe: func(i int64) interface{} {
 			fc := cases[i]
 			q := specs[fc.seq]
-			if fc.j < 0 {
-				return q.String() + "; healthy"
+			if fc.pre {
+				return describe(q.String()+"; the first message after the base sequence is allocated and built before the first send", fc, q)
 			}
-			if fc.k == -1 {
-				return fmt.Sprintf("%s; the send's context is cancelled right after Write #%d (%d bytes) completed", q, fc.j, q.lens[fc.j])
-			}
-			return fmt.Sprintf("%s; Write #%d (%d bytes) returns (%d, err)", q, fc.j, q.lens[fc.j], fc.k)
+			return describe(q.String(), fc, q)
 		},
 	}}
+}
+
+func describe(qs string, fc faultCase, q seqSpec) string {
+	if fc.j < 0 {
+		return qs + "; healthy"
+	}
+	if fc.k == -1 {
+		return fmt.Sprintf("%s; the send's context is cancelled right after Write #%d (%d bytes) completed", qs, fc.j, q.lens[fc.j])
+	}
+	return fmt.Sprintf("%s; Write #%d (%d bytes) returns (%d, err)", qs, fc.j, q.lens[fc.j], fc.k)
 }
